@@ -14,7 +14,7 @@
    additionally evaluated on every run of the implementation. *)
 From Coq Require Import Reals.
 From Flocq Require Import Core IEEE754.BinarySingleNaN.
-From F1 Require Import Base.Prelude Base.F64 Model.Jitter Proofs.JitterProofs Proofs.JitterF64.
+From F1 Require Import Base.Prelude Base.F64 Model.Jitter Proofs.JitterProofs Proofs.JitterF64 Proofs.JitterCompose.
 Local Open Scope Z_scope.
 
 (* Zero jitter is the identity. *)
@@ -157,19 +157,7 @@ Theorem C13_composed_bound : forall jn jd R dprev part_j part_p out,
   0 <= part_p <= R -> 0 <= part_j <= out ->          (* what the current period has emitted so far *)
   (jd - jn) * jd * out <= (jd - jn) * R * (jd + jn) + (jd + jn) * (jn * R + jd) + jd * (jd - jn) ->
   composed_bound_ok jn jd R (Z.abs (dprev + part_p - part_j)) = true.
-Proof.
-  intros jn jd R dprev pj pp out Hj HR Hd Hp Hq Ho. unfold composed_bound_ok. apply Z.leb_le.
-  assert (A : Z.abs (dprev + pp - pj) <= Z.abs dprev + Z.max pp pj) by lia.
-  assert (0 < jd - jn) by lia. assert (0 < jd) by lia.
-  assert (B : (jd - jn) * jd * Z.abs (dprev + pp - pj) <= (jd - jn) * jd * (Z.abs dprev + Z.max pp pj)).
-  { apply Z.mul_le_mono_nonneg_l; [nia|exact A]. }
-  assert (C : (jd - jn) * jd * Z.abs dprev <= jd * (jn * R + jd)) by nia.
-  assert (D : (jd - jn) * jd * Z.max pp pj <= (jd - jn) * R * (jd + jn) + (jd + jn) * (jn * R + jd) + jd * (jd - jn)).
-  { destruct (Z.max_spec pp pj) as [[_ ->]|[_ ->]].
-    - assert ((jd - jn) * jd * pj <= (jd - jn) * jd * out) by (apply Z.mul_le_mono_nonneg_l; nia). lia.
-    - assert ((jd - jn) * jd * pp <= (jd - jn) * jd * R) by (apply Z.mul_le_mono_nonneg_l; nia). nia. }
-  nia.
-Qed.
+Proof. exact composed_bound. Qed.
 Print Assumptions C13_composed_bound.
 
 (* ... and the last premise is what every admissible jitter step gives when the carried balance
@@ -179,20 +167,25 @@ Theorem C13_step_upper : forall jn jd R bal rate r,
   (jd - jn) * Z.abs bal <= jn * R + jd ->
   jitter_step_ok jn jd bal rate r ->
   (jd - jn) * jd * r <= (jd - jn) * R * (jd + jn) + (jd + jn) * (jn * R + jd) + jd * (jd - jn).
-Proof.
-  intros jn jd R bal rate r Hj Hr Hb Hs. unfold jitter_step_ok in Hs.
-  assert (0 < jd - jn) by lia.
-  destruct (rate + bal <? 0) eqn:E.
-  - subst r. rewrite Z.mul_0_r.
-    assert (0 <= (jd - jn) * R * (jd + jn)) by (apply Z.mul_nonneg_nonneg; [apply Z.mul_nonneg_nonneg|]; lia).
-    assert (0 <= (jd + jn) * (jn * R + jd)) by (apply Z.mul_nonneg_nonneg; [lia|]; assert (0 <= jn * R) by (apply Z.mul_nonneg_nonneg; lia); lia).
-    assert (0 <= jd * (jd - jn)) by (apply Z.mul_nonneg_nonneg; lia). lia.
-  - apply Z.ltb_ge in E. destruct Hs as [Hr0 Hs].
-    assert (A0 : jd * (r - (rate + bal)) <= jd * Z.abs (r - (rate + bal))) by (apply Z.mul_le_mono_nonneg_l; lia).
-    assert (A : jd * r <= (jd + jn) * (rate + bal) + jd) by nia.
-    assert (B : (jd - jn) * (rate + bal) <= (jd - jn) * R + (jn * R + jd)) by nia.
-    assert (C : (jd - jn) * (jd * r) <= (jd - jn) * ((jd + jn) * (rate + bal) + jd)) by (apply Z.mul_le_mono_nonneg_l; lia).
-    assert (D : (jd + jn) * ((jd - jn) * (rate + bal)) <= (jd + jn) * ((jd - jn) * R + (jn * R + jd))) by (apply Z.mul_le_mono_nonneg_l; lia).
-    nia.
-Qed.
+Proof. exact step_upper. Qed.
 Print Assumptions C13_step_upper.
+
+(* Put together over a whole history: for every run of the jitter (any rates within [0, R], any
+   admissible outcome of the random variation), whatever non-negative parts each period's value -
+   jittered or not - is spread into, the two running totals differ at every sub-tick of every
+   period by at most the bound of composed_bound_ok. *)
+Theorem C13_composed_history : forall rates outs sp sj jn jd R,
+  0 <= jn < jd -> Forall (fun x => 0 <= x <= R) rates ->
+  run_ok jn jd 0 rates outs ->
+  Forall2 spread_ok rates sp -> Forall2 spread_ok outs sj ->
+  composed_ok jn jd R 0 rates outs sp sj.
+Proof.
+  intros rates outs sp sj jn jd R Hj HR Hok Fp Fj.
+  destruct rates as [|x rs].
+  - destruct outs; cbn in Hok; [|tauto]. inversion Fp; subst. inversion Fj; subst. exact I.
+  - apply composed_history; try assumption.
+    apply Forall_cons_iff in HR. destruct HR as [Hx _].
+    change (Z.abs 0) with 0. rewrite Z.mul_0_r.
+    assert (0 <= jn * R) by (apply Z.mul_nonneg_nonneg; lia). lia.
+Qed.
+Print Assumptions C13_composed_history.
